@@ -8,17 +8,25 @@ rows = []
 for f in sorted(glob.glob('/verif/mutants/results/*.json')):
     r = json.load(open(f)); name = os.path.basename(f)[:-5]
     target = idx.get(name)
-    if target is None and name.startswith('refac_'):
+    if target is None and (name.startswith('refac_') or name.startswith('pres_')):
         target = 'NONE'
     if target is None and name.startswith('seeded_'):
         m = '/verif/seeded/%s/meta.json' % name[7:]
         target = json.load(open(m))['property'] if os.path.exists(m) else name[7:10]
     caught = r.get('caught_by', [])
     und = [c for c, rc in r.get('checks', {}).items() if rc == 2]
-    ok = (target == 'NONE' and not caught and not und) or (target in caught)
+    preserved = None
+    if name.startswith('pres_'):
+        mp = '/verif/preserving/%s/meta.json' % name[5:]
+        if os.path.exists(mp): preserved = json.load(open(mp))['preserves']
+    if preserved is not None:
+        ok = not [c for c in caught if c in preserved] and not und
+        target = 'keep:' + ','.join(preserved)[:18]
+    else:
+        ok = (target == 'NONE' and not caught and not und) or (target in caught)
     rows.append((name, target, r.get('repo_tests_pass_with_patch'), r.get('demo_fails_with_patch'), r.get('demo_passes_without_patch'), caught, und, ok))
 w = max(len(r[0]) for r in rows) if rows else 10
-print(f"{'mutant':{w}} target tests demo+/- caught_by  [undecided]")
+print(f"{'mutant':{w}} {'target / preserved':22} tests demo+/- caught_by  [undecided]")
 for name, target, tp, df, dp, caught, und, ok in rows:
-    print(f"{name:{w}} {target:6} {str(tp):5} {str(df)[:1]}/{str(dp)[:1]}      {','.join(caught) or '-'}  {und or ''} {'' if ok else '   <<<<<< MISSED' if target!='NONE' else '   <<<<<< FALSE ALARM'}")
+    print(f"{name:{w}} {target:22} {str(tp):5} {str(df)[:1]}/{str(dp)[:1]}      {','.join(caught) or '-'}  {und or ''} {'' if ok else '   <<<<<< FALSE ALARM' if (target=='NONE' or target.startswith('keep:')) else '   <<<<<< MISSED'}")
 print("missed:", [r[0] for r in rows if not r[7]])
